@@ -815,6 +815,7 @@ func specList(entry, proto string, thorough bool, rng *rand.Rand) []spec {
 	out = append(out, prngSpecs(role, rng, rest*2/3, rest-rest*2/3)...)
 	// after everything else: the indices of the inputs above stay what they were
 	out = append(out, edgeSpecs(role, proto, thorough)...)
+	out = append(out, repeatSpecs(role, thorough)...)
 	return out
 }
 
